@@ -50,7 +50,7 @@ RULE = (
     "distinct = sha1(case); non-trivial = nested requests were observed (depth >= 3) or the substitution changed the result."
 )
 ASSUMPTIONS = ["substitution cases are compared only for dictionaries on which the un-substituted graph evaluates (keys of the substituted dataset are still computed by caching consumers)"]
-FLOORS = {"nested_datasetclass_checks": (3, 3), "user_subclass_operations": (13, 13), "backend_lied_exists": (150, 1000), "log_emitters_checked": (9, 9), "types_checked": (28, 28), "method_requests_matched": (106, 106), "graph_evaluations": (4000, 30000), "body_stack_checks": (1500, 10000),
+FLOORS = {"inherited_tap_checks": (2, 2), "nested_datasetclass_checks": (3, 3), "user_subclass_operations": (13, 13), "backend_lied_exists": (150, 1000), "log_emitters_checked": (9, 9), "types_checked": (28, 28), "method_requests_matched": (106, 106), "graph_evaluations": (4000, 30000), "body_stack_checks": (1500, 10000),
           "backend_calls_under_request": (8000, 60000), "option_type_validations": (20000, 100000), "substitutions_compared": (1500, 6000),
           "substitution_changed_result": (800, 3000), "implementation_calls_matched": (100000, 1000000)}
 COVER = {"substitution_inner_blocks": ["none", "cache.disabled", "logging.disabled", "mapping-form", "pair-form"]}
@@ -505,6 +505,52 @@ def nested_datasetclass(ctx):
         ctx.nontrivial(spec_hash(["nested-datasetclass", name]))
 
 
+def inherited_tap(ctx):
+    """Evaluations done by a worker thread that inherited the submitting thread's runtime are observed by that thread's
+    tap and honour its substitutes - for a fresh worker and for a re-used one that already had a runtime of its own."""
+    import threading
+
+    leaf = dataset.nocache(lambda a=Option("A", 1): ("leaf", a))
+    top = dataset.nocache(lambda x=leaf: ("top", x))
+    for reused in (False, True):
+        seen, out = [], {}
+        go, done = threading.Event(), threading.Event()
+        parent = threading.current_thread()
+
+        def work():
+            if reused:
+                top.evaluate({"A": 0})  # the worker has used the library before: it owns a runtime already
+            go.wait(30)
+            rt.inherit(parent)
+            out["value"] = observe(top.evaluate, {"A": 5})
+            done.set()
+
+        t = threading.Thread(target=work, name="c18-worker")
+        t.start()
+        canned = ("substituted-leaf",)
+        cur = rt.current_runtime()
+        inner = cur.handlers[EvaluateRequest]
+
+        def handler(request):
+            seen.append(request.evaluatable)
+            if request.evaluatable is leaf:
+                return canned
+            return inner(request)
+
+        with rt.handle(EvaluateRequest, handler):
+            go.set()
+            done.wait(30)
+        t.join(30)
+        ctx.evaluations += 1
+        ctx.count("inherited_tap_checks")
+        W = {"family": "inherited-tap", "reused_worker": reused}
+        if not any(e is top for e in seen) or out.get("value") != ("ok", canon(("top", canned))):
+            ctx.violation("operation-outside-request", f"a {'re-used' if reused else 'fresh'} worker inherited the submitting thread's runtime: its evaluation gave {short(out.get('value'))}; "
+                          f"the submitting thread's handler saw {len(seen)} request(s) (expected the substitute for the inner dataset to be honoured)", W)
+            return
+        ctx.nontrivial(spec_hash(["inherited-tap", reused]))
+
+
 def subject_of(request):
     from ..tap import subject
 
@@ -579,6 +625,7 @@ def run(ctx):
         log_emitters(ctx)
         user_subclasses(ctx)
         nested_datasetclass(ctx)
+        inherited_tap(ctx)
     else:
         # every shard re-checks reflection cheaply so that the floors are shard-independent
         pass
@@ -609,7 +656,9 @@ def run(ctx):
 
 def replay(ctx, rep):
     w = rep["witness"]
-    if w.get("family") == "nested-datasetclass":
+    if w.get("family") == "inherited-tap":
+        inherited_tap(ctx)
+    elif w.get("family") == "nested-datasetclass":
         nested_datasetclass(ctx)
     elif w.get("family") == "user-subclasses":
         user_subclasses(ctx)
